@@ -3,6 +3,7 @@ import PyPhysim.Proofs.C11Q
 import PyPhysim.Proofs.C11Agg
 import PyPhysim.Proofs.C11Views
 import PyPhysim.Proofs.C11Close
+import PyPhysim.Proofs.C11Gen
 
 /-!
 # C11 — reported SINRs equal first-principles signal over interference-plus-noise
@@ -624,5 +625,66 @@ example :
     (fun _ _ _ => (1 : ℂ)) (fun _ _ _ => 1) 0 (fun _ _ => 1) (fun _ i => i.elim0) none 1 (1 + 1 / 10 ^ 9) 0 0 0
     zero_le_one (by positivity) le_rfl le_rfl (fun _ h => by cases h) ?_ ⟨0, one_ne_zero⟩).1 (by norm_num)
   simp [sigPow, streamPow, amp, filt]
+
+/-! ### the formulas of the CURRENT source, regenerated, are the model's
+
+`Generated/C11Formulas.lean` is re-emitted from `multiuser.py` / `iabase.py` by `harness/gen/c11.py` on every
+check run: the expression trees of `_calc_Bkl_cov_matrix_first_part / second_part / all_l`, `_calc_SINR_k`
+(channel object), the joint-processing `_impl` twins, and the IA solver's methods of the same names, over the
+primitive matrix operations only.  The theorem below holds for EVERY pair of scalar types (no algebraic law
+is used: both sides are the same term), hence at `ℂ`/`ℝ`, where the theorems above live, and at binary64. -/
+section generated
+open PyPhysim.Sinr.GenPf
+variable {α ρ : Type} [Zero α] [One α] [Add α] [Sub α] [Mul α] [Div α] [Conj α] [BEq α] [RC ρ α] [Zero ρ] [One ρ]
+
+/-- **The regenerated formula trees equal the hand model, for all arguments.**  Channel object: first part
+    (total covariance + `Rek`; `Rek` a matrix, a scalar noise power `c·I`, or `None` read as `0·I`), second
+    part (own stream), `first − second`, and the SINR quotient (no value exactly when the regenerated
+    denominator is `0`, else `|num / den|`).  Joint processing: the same with one channel `Hk` for every user.
+    IA solver: first / second part from `V = full_F` ONLY (the regenerated trees take the unit-norm precoders
+    `F` and the powers `P` as arguments too and must ignore them), `first − second + Rek` with
+    `Rek = noise·I (+ external covariance)`, and the quotient with `u = (row l of full_W_H)ᴴ`. -/
+theorem generated_formulas_match_model (G : (j : Fin K) → Mat α n (T j)) (V F : (j : Fin K) → Mat α (T j) (S j))
+    (P : Fin K → ρ) (k : Fin K) (l : Fin (S k)) (Rek : Mat α n n) (c : ρ) (Uk : Mat α n (S k))
+    (WHk : Mat α (S k) n) (He : Mat α n e) {t : Nat} (Hk : Mat α n t) {s : Fin K → Nat}
+    (V' : (j : Fin K) → Mat α t (s j)) (Uk' : Mat α n (s k)) (l' : Fin (s k)) :
+    -- channel object, interference channel
+    (Gen.chFirstMat G V k Rek = chFirst G V Rek
+      ∧ Gen.chFirstScalar G V k c = chFirst G V (baseRek n (some c))
+      ∧ Gen.chFirstNone (ρ := ρ) G V k = chFirst G V (baseRek n (none : Option ρ))
+      ∧ Gen.chSecond G k (V k) l = chSecond (G k) (V k) l
+      ∧ Gen.chBklMat G V k Rek l = chBkl G V Rek k l
+      ∧ Gen.chBklScalar G V k c l = chBkl G V (baseRek n (some c)) k l
+      ∧ chSinr (ρ := ρ) G V k Uk Rek l =
+          if Gen.chSinrDen G k (V k) Uk (chBkl G V Rek k l) l == 0 then .error .ZeroDivisionError
+          else .ok (Gen.chSinrVal G k (V k) Uk (chBkl G V Rek k l) l))
+    -- channel object, joint processing
+    ∧ (Gen.jpFirst Hk V' Rek = chFirst (T := fun _ => t) (fun _ => Hk) V' Rek
+      ∧ Gen.jpSecond Hk (V' k) l' = chSecond Hk (V' k) l'
+      ∧ chSinr (ρ := ρ) (T := fun _ => t) (fun _ => Hk) V' k Uk' Rek l' =
+          if Gen.jpSinrDen Hk (V' k) Uk' (chBkl (T := fun _ => t) (fun _ => Hk) V' Rek k l') l' == 0
+          then .error .ZeroDivisionError
+          else .ok (Gen.jpSinrVal Hk (V' k) Uk' (chBkl (T := fun _ => t) (fun _ => Hk) V' Rek k l') l'))
+    -- IA solver
+    ∧ (Gen.solFirst G V F P k = solFirst G V
+      ∧ Gen.solSecond G V F P k l = solSecond (G k) (V k) l
+      ∧ Gen.solBklPlain G V F P k c l = solBkl G V (solRek (e := 0) n c none) k l
+      ∧ Gen.solBklExt G V F P k c (extCov He (1 : ρ)) l = solBkl G V (solRek n c (some He)) k l
+      ∧ solSinr (ρ := ρ) G V k WHk Rek l =
+          if Gen.solSinrDen G V F P k WHk (solBkl G V Rek k l) l == 0 then .error .ZeroDivisionError
+          else .ok (Gen.solSinrVal G V F P k WHk (solBkl G V Rek k l) l)) :=
+  ⟨⟨chFirst_mat G V k Rek, chFirst_scalar G V k c, chFirst_none G V k, chSecond_eq G k (V k) l,
+    chBkl_mat G V k Rek l, chBkl_scalar G V k c l, chSinr_eq G V k Uk Rek l⟩,
+   ⟨jpFirst_eq Hk V' Rek, jpSecond_eq Hk (V' k) l', jpSinr_eq Hk V' k Uk' Rek l'⟩,
+   ⟨solFirst_eq G V F P k, solSecond_eq G V F P k l, solBkl_plain G V F P k c l, solBkl_ext G V F P k c He l,
+    solSinr_eq G V F P k WHk Rek l⟩⟩
+
+/-- the two paths state the SAME interference-plus-noise covariance up to the association of the products
+    (`H (V Vᴴ) Hᴴ` vs `(H V)(H V)ᴴ`) and the place of `Rek` — the regenerated trees, at `ℂ`, agree
+    (this is `two_paths_agree`'s covariance step, now about the source's own trees) -/
+example (G : (j : Fin K) → Mat ℂ n (T j)) (V F : (j : Fin K) → Mat ℂ (T j) (S j)) (P : Fin K → ℝ) (k : Fin K) :
+    Gen.solFirst G V F P k = solFirst G V := solFirst_eq G V F P k
+
+end generated
 
 end PyPhysim.C11
